@@ -57,6 +57,17 @@ fn main() {
                 }
             }
         }
+        Some("c18-child") => {
+            let order: Vec<usize> = args.get(2).map(|s| s.split(',').filter_map(|x| x.parse().ok()).collect()).unwrap_or_default();
+            let threads: usize = args.get(3).and_then(|s| s.parse().ok()).unwrap_or(2);
+            ohv::props::c18::child_main(&order, threads);
+        }
+        Some("py-oracle") => ohv::pyoracle::serve(),
+        Some("gen-exprs") => {
+            let seed: u64 = args.get(2).and_then(|s| s.parse().ok()).unwrap_or(0);
+            let count: usize = args.get(3).and_then(|s| s.parse().ok()).unwrap_or(100);
+            ohv::pyoracle::gen_exprs(seed, count);
+        }
         Some("list") => {
             for p in props::all() {
                 let subs: Vec<&str> = p.subs.iter().map(|s| s.name).collect();
